@@ -34,7 +34,7 @@ def list_case(n_ops, first, twins=False):
             for s in range(n_ops):
                 n = len(model)
                 opts = [("assign", (0, 1)), ("assign", (1, 0, 1)), ("assign", ()), ("self-assign",), ("iadd", (2,)), ("iadd", (0, 0)), ("append", 2), ("append", 0),
-                        ("extend", (1, 2)), ("extend", ()), ("extend", (0, 2)), ("assign", (0, 2)), ("iadd", (2, 0))] + [("insert", p, 2) for p in sorted({0, n, -1, -(n + 1), n + 1})] + [("setitem", p, 2) for p in sorted({0, n - 1}) if 0 <= p < n] + [("setslice", 0, 1, (2,), "iter"), ("setslice", 0, 0, (1, 2), "list"), ("setslice", 1, 5, (0,), "iter"), ("setslice", 0, 0, (0, 2), "list")]
+                        ("extend", (1, 2)), ("extend", ()), ("extend", (0, 2)), ("assign", (0, 2)), ("iadd", (2, 0))] + [("insert", p, 2) for p in sorted({0, n, -1, -(n + 1), n + 1})] + [("setitem", p, 2) for p in sorted({0, n - 1}) if 0 <= p < n] + [("setslice", 0, 1, (2,), "iter"), ("setslice", 0, 0, (1, 2), "list"), ("setslice", 1, 5, (0,), "iter"), ("setslice", 0, 0, (0, 2), "list")] + ([("setstep", 2, (2, 1))] if len(model[::2]) == 2 else []) + [("assign-lazy", "reversed"), ("assign-lazy", "genexpr")]
                 if s < len(first):
                     op = first[s]
                     if op not in opts:
@@ -63,6 +63,18 @@ def list_case(n_ops, first, twins=False):
                 elif k == "setitem":
                     hum.member_of[op[1]] = pool[op[2]]
                     model[op[1]] = pool[op[2]]
+                elif k == "setstep":  # extended slice: every n-th position is replaced
+                    vals = [pool[i] for i in op[2]]
+                    hum.member_of[::op[1]] = list(vals)
+                    model[::op[1]] = vals
+                elif k == "assign-lazy":  # the assigned value is a lazy iterable that reads the field itself
+                    if op[1] == "reversed":
+                        new_model = list(reversed(model))
+                        hum.member_of = reversed(hum.member_of)
+                    else:
+                        new_model = [x for x in model if x is not pool[1]]
+                        hum.member_of = (x for x in hum.member_of if x is not pool[1])
+                    model = new_model
                 elif k == "setslice":  # slice assignment, from a list or from a one-shot iterator
                     vals = [pool[i] for i in op[3]]
                     hum.member_of[op[1]:op[2]] = iter(vals) if op[4] == "iter" else list(vals)
@@ -185,7 +197,7 @@ def set_case(n_ops, first):
     return h
 
 
-LIST_FIRST = [("setslice", 0, 1, (2,), "iter"), ("setslice", 0, 0, (1, 2), "list"), ("assign", (0, 1)), ("assign", (1, 0, 1)), ("assign", ()), ("self-assign",), ("iadd", (2,)), ("iadd", (0, 0)), ("append", 2), ("append", 0), ("extend", (1, 2)), ("extend", ()), ("insert", 0, 2), ("insert", -1, 2)]
+LIST_FIRST = [("assign-lazy", "reversed"), ("assign-lazy", "genexpr"), ("setslice", 0, 1, (2,), "iter"), ("setslice", 0, 0, (1, 2), "list"), ("assign", (0, 1)), ("assign", (1, 0, 1)), ("assign", ()), ("self-assign",), ("iadd", (2,)), ("iadd", (0, 0)), ("append", 2), ("append", 0), ("extend", (1, 2)), ("extend", ()), ("insert", 0, 2), ("insert", -1, 2)]
 SET_FIRST = [("assign", (0, 1)), ("assign", (2,)), ("assign", ()), ("self-assign",), ("ior", (2,)), ("ior", (0,)), ("add", 2), ("add", 0), ("update", (1, 2)), ("update", ())]
 
 
@@ -211,7 +223,7 @@ def describe(tier):
     n = 2 if tier == "quick" else 3
     return dict(
         rule="initial contents (ordered list with repetitions / set over a pool of 3 elements, a bounded symbolic choice) followed by %d write operations chosen symbolically from "
-        "{assign a new collection, x.f = x.f, += / |=, append, extend, insert (front / end / negative index), item assignment, slice assignment (from a list / a one-shot iterator), add, update} with operands from the pool, on a "
+        "{assign a new collection, x.f = x.f, += / |=, append, extend, insert (front / end / negative index), item assignment, slice assignment (from a list / a one-shot iterator, extended slices), assignment of a lazy iterable that reads the field itself (reversed(x.f), a generator expression over x.f), add, update} with operands from the pool, on a "
         "list-valued (Human.member_of; also with a pool in which two distinct elements compare equal and hash alike) and a set-valued (Org.members) managed field, and a transitive list field (the written element brings consequences that go into the same field); the field must equal the same operations applied to a plain list / set (order and "
         "multiplicity for lists) and every element of the field must be related in the symbol graph with its inverse inferred. non-trivial = non-empty final contents" % n,
         bounds=dict(operations=n, pool=3, initial_lengths="<= 3"),
